@@ -3,6 +3,7 @@ package c10
 import (
 	"bytes"
 	"context"
+	"errors"
 	"fmt"
 	"math/bits"
 	"slices"
@@ -43,6 +44,24 @@ func (e *env) useLive(sc *scenario) outcome {
 
 // ---- read -----------------------------------------------------------------------------------
 
+// cappedWriter is an io.Writer that fails once more than *limit bytes have been handed to it
+// (*limit < 0: never); what it accepted is what the caller has been given.
+type cappedWriter struct {
+	buf   bytes.Buffer
+	limit *int
+}
+
+var errWriterFull = errors.New("verif: the caller's writer failed")
+
+func (w *cappedWriter) Write(p []byte) (int, error) {
+	if l := *w.limit; l >= 0 && w.buf.Len()+len(p) > l {
+		k := max(l-w.buf.Len(), 0)
+		w.buf.Write(p[:k])
+		return k, errWriterFull
+	}
+	return w.buf.Write(p)
+}
+
 type readResult struct {
 	res  rhp4.RPCReadSectorResult
 	data []byte
@@ -65,10 +84,14 @@ func lenientRead(sector *[proto4.SectorSize]byte, start, end uint64) ([]types.Ha
 func (e *env) readScenario(root types.Hash256, off, n uint64) *scenario {
 	sector := e.sectors[root]
 	sc := &scenario{rpc: "read", name: fmt.Sprintf("s%d_o%d_n%d", e.rid(root), off, n), steps: rhpc.StepsRead, mustSucceed: readStructurallyValid(off, n) && off%64 == 0}
+	// the caller's writer: accepts everything, or fails once more than failAt bytes are handed to
+	// it (set by the "writer-fails-at-…" cases while the exchange is running)
+	failAt := -1
 	sc.call = func(tr rhp4.TransportClient) (any, error) {
-		var buf bytes.Buffer
-		res, err := rhp4.RPCReadSector(ctx, tr, e.prices, e.token, &buf, root, off, n)
-		return readResult{res, buf.Bytes()}, err
+		failAt = -1
+		w := &cappedWriter{limit: &failAt}
+		res, err := rhp4.RPCReadSector(ctx, tr, e.prices, e.token, w, root, off, n)
+		return readResult{res, w.buf.Bytes()}, err
 	}
 	valid := readStructurallyValid(off, n)
 	start, end := leafRange(off, n)
@@ -91,7 +114,7 @@ func (e *env) readScenario(root types.Hash256, off, n uint64) *scenario {
 		if len(sent) > 2 && !sent[1].Failed() {
 			raw = sent[2].Raw
 		}
-		return fmt.Sprintf("read 1 %d %d %s |", off, n, e.priceWords()) + msgWords(sc.steps, sent, func(i int, m rhpc.Msg) string {
+		return fmt.Sprintf("read 1 %d %d %d %s |", off, n, failAt+1, e.priceWords()) + msgWords(sc.steps, sent, func(i int, m rhpc.Msg) string {
 			if i == 1 {
 				r := m.Obj.(*proto4.RPCReadSectorResponse)
 				return fmt.Sprintf("1 %d %d", b2i(verdict(r.Proof, r.DataLength, raw)), r.DataLength)
@@ -109,7 +132,9 @@ func (e *env) readScenario(root types.Hash256, off, n uint64) *scenario {
 			c.Oracle("read-invalid-range-succeeds", "read of [%d,+%d) succeeded", off, n)
 			return
 		}
-		if uint64(len(rr.data)) != n {
+		if failAt >= 0 && uint64(failAt) < n {
+			c.Oracle("read-success-although-writer-failed", "RPCReadSector(offset=%d, length=%d) reported success although the caller's writer failed after %d bytes: only %d of the %d verified bytes were delivered and the writer's error was dropped", off, n, failAt, len(rr.data), n)
+		} else if uint64(len(rr.data)) != n {
 			c.Oracle("read-delivers-outside-range", "RPCReadSector(offset=%d, length=%d) reported success and wrote %d bytes to the caller (requested %d): bytes outside the requested range were delivered", off, n, len(rr.data), n)
 		} else if !bytes.Equal(rr.data, sector[off:off+n]) {
 			c.Oracle("read-wrong-bytes", "RPCReadSector(offset=%d, length=%d) succeeded with bytes that are not the sector's", off, n)
@@ -145,6 +170,17 @@ func (e *env) readScenario(root types.Hash256, off, n uint64) *scenario {
 	sc.muts = append(sc.muts, u64Muts(1, "DataLength", func(out []rhpc.Msg) *uint64 { return &resp(out).DataLength })...)
 	sc.muts = append(sc.muts, msgMuts(1, sc.steps)...)
 	sc.muts = append(sc.muts, rawMuts(2, "data", altData)...)
+	// the host is honest, the caller's writer is not: it fails at the first byte, in the middle,
+	// on the last byte, at and around the 4 KiB block boundaries a buffering layer would use
+	seen := map[int]bool{}
+	for _, k := range []int{0, 1, int(n) / 2, int(n) - 64, int(n) - 1, 4095, 4096, 4097, int(n) - int(n)%4096, int(n) - int(n)%4096 - 1} {
+		if k < 0 || k >= int(n) || seen[k] {
+			continue
+		}
+		seen[k] = true
+		sc.muts = append(sc.muts, mutation{1, "writer", fmt.Sprintf("writer-fails-at-%d-of-%d", k, n), func([]rhpc.Msg) { failAt = k }})
+	}
+	sc.muts = append(sc.muts, mutation{1, "writer", "writer-limit-exactly-length", func([]rhpc.Msg) { failAt = int(n) }})
 	// coherent lies: a fully valid answer for another range
 	if end < proto4.LeavesPerSector {
 		sc.muts = append(sc.muts, mutation{1, "response", "valid-for-next-range", func(out []rhpc.Msg) {
